@@ -115,6 +115,35 @@ func init() {
 			GenCore(r, k, sc)
 			sc.Arm = "natural"
 			sc.RunForMs = 180000
+			if r.P(200) {
+				// a trigger whose shutdown terminates the dependency of an exit_on_skipped process:
+				// that skip is a consequence of the shutdown, not a trigger of its own
+				sc.Arm = "skipchain"
+				trig := &ProcSpec{Name: "tg", Token: "tg"}
+				code := Pick(r, 3, 7, 0)
+				if code == 0 {
+					trig.ExitOnEnd = true
+				} else {
+					trig.Restart = "exit_on_failure"
+				}
+				sc.Scripts["tg"] = &TokenScript{Launches: []simos.Script{{LifeMs: Pick(r, 500, 1500, 3000), Exit: code}}}
+				dep := &ProcSpec{Name: "dp", Token: "dp"}
+				if r.P(500) {
+					dep.StopTimeout = iptr(Pick(r, 1, 2))
+				}
+				sc.Scripts["dp"] = &TokenScript{Launches: []simos.Script{{LifeMs: 60000, TermLagMs: Pick(r, 0, 10, 500), ExitOnSig: Pick(r, 0, 143)}}}
+				sk := &ProcSpec{Name: "sk", Token: "sk", ExitOnSkipped: true, DependsOn: map[string]string{"dp": Pick(r, "process_completed_successfully", "process_log_ready")}}
+				if sk.DependsOn["dp"] == "process_log_ready" {
+					dep.ReadyLine = "never printed"
+				}
+				sc.Scripts["sk"] = &TokenScript{Launches: []simos.Script{{LifeMs: 100}}}
+				for i := 0; i < r.Range(0, 3); i++ {
+					nm := fmt.Sprintf("fl%d", i)
+					sc.Project.Procs = append(sc.Project.Procs, &ProcSpec{Name: nm, Token: nm, StopTimeout: iptr(Pick(r, 1, 2))})
+					sc.Scripts[nm] = &TokenScript{Launches: []simos.Script{{LifeMs: 60000, TermLagMs: Pick(r, 0, 100, 1500), Ignore: []int{15}}}}
+				}
+				sc.Project.Procs = append(sc.Project.Procs, trig, dep, sk)
+			}
 			for _, p := range sc.Project.Procs {
 				if p.ExitOnEnd || p.ExitOnSkipped || p.Restart == "exit_on_failure" {
 					// which trigger comes first is judged from the order of events: a stalled
@@ -150,6 +179,21 @@ func init() {
 			GenCore(r, k, sc)
 			sc.RunForMs = 40000
 			subject := sc.Project.Procs[r.Intn(len(sc.Project.Procs))]
+			if r.P(150) {
+				// some launches end in a crash (death by a signal nobody sent: exit code -1)
+				for _, p := range sc.Project.Procs {
+					if p.Restart == "exit_on_failure" || p.ExitOnEnd {
+						continue
+					}
+					if ts := sc.Scripts[p.Token]; ts != nil {
+						for l := range ts.Launches {
+							if ts.Launches[l].LifeMs >= 0 && r.P(500) {
+								ts.Launches[l].CrashSig = Pick(r, 11, 6, 9)
+							}
+						}
+					}
+				}
+			}
 			switch r.Intn(5) {
 			case 4:
 				// a shutdown that is held up by a slow process while the subject is in (or
@@ -271,6 +315,11 @@ func init() {
 			if r.P(200) {
 				addRedoPair(r, sc)
 				sc.Arm = "redo"
+				sc.RunForMs = 25000
+			} else if r.P(150) {
+				// a dependency that is stopped by the user before it ever became ready
+				addStopUnreadyPair(r, sc)
+				sc.Arm = "stopunready"
 				sc.RunForMs = 25000
 			}
 			return sc
@@ -610,6 +659,13 @@ func addRedoPair(r *R, sc *Scenario) {
 		sc.Scripts["simprobe:rx"] = ts
 		if life1 < 0 {
 			first.LifeMs = 3500
+		}
+		if r.P(400) {
+			// the second life ends before its first probe run: whatever the first life's probes
+			// said is not its readiness
+			x.Readiness.InitialDelay = iptr(3)
+			first.LifeMs = 4200
+			second.LifeMs = Pick(r, 500, 2000)
 		}
 		d.DependsOn = map[string]string{"rx": "process_healthy"}
 	}
